@@ -128,6 +128,8 @@ func cmdCheck(args []string) int {
 	workers := fs.Int("workers", runtime.NumCPU(), "parallel workers")
 	solver := fs.String("solver", envOr("GOSYM_SOLVER", "z3-new"), "solver binary")
 	timeout := fs.Int("timeout", 20000, "solver timeout per query (ms)")
+	dirFlag := fs.String("dir", "", "harness directory to use (default: the property id); lets several properties share harnesses")
+	labelPfx := fs.String("labels", "", "only assertion labels with this prefix belong to the property (others are ignored)")
 	var params multiFlag
 	fs.Var(&params, "p", "harness parameter name=value (repeatable)")
 	var prop string
@@ -155,7 +157,11 @@ func cmdCheck(args []string) int {
 	if *tier == "thorough" {
 		tierN = 1
 	}
-	hs, err := load.ReadHarnesses(filepath.Join(verif, "harness", prop))
+	hdir := prop
+	if *dirFlag != "" {
+		hdir = *dirFlag
+	}
+	hs, err := load.ReadHarnesses(filepath.Join(verif, "harness", hdir))
 	if err != nil {
 		fmt.Println("ERROR:", err)
 		return 2
@@ -193,7 +199,7 @@ func cmdCheck(args []string) int {
 		pkgDir string
 	}
 	var entries []entry
-	fnRE := regexp.MustCompile(`(?m)^func (ZZ` + prop + `_\w+)\(\)`)
+	fnRE := regexp.MustCompile(`(?m)^func (ZZ` + hdir + `_\w+)\(\)`)
 	for _, h := range hs {
 		pkgPath := "github.com/regclient/regclient"
 		if h.PkgDir != "." {
@@ -225,6 +231,16 @@ func cmdCheck(args []string) int {
 	for _, en := range entries {
 		t0 := time.Now()
 		eng.Run(en.fn)
+		if *labelPfx != "" {
+			// keep only the violations that belong to this property
+			var keep []sym.Violation
+			for _, v := range eng.Violations {
+				if strings.HasPrefix(v.Label, *labelPfx) || v.Kind != "assert" {
+					keep = append(keep, v)
+				}
+			}
+			eng.Violations = keep
+		}
 		r := &harnessReport{Name: en.fn.Name(), PkgDir: en.pkgDir, Paths: eng.Paths, Steps: eng.Steps, Obligations: eng.Obligations,
 			Discharged: eng.Discharged, Trivial: eng.Trivial, Queries: eng.Queries, SolverS: eng.SolverTime.Seconds(),
 			Reached: eng.Reached, Witness: eng.Witness, Violations: eng.Violations, Incon: eng.Incon, Samples: eng.Samples,
